@@ -610,6 +610,10 @@ impl Engine for C14 {
                     w.fs.disk.put_file(&format!("{}/{}", cache_dir_key(), name), wrong.as_bytes());
                 }
                 w.fs.disk.put_file(&format!("{}/notes.txt", cache_dir_key()), b"remember to check 2021\n");
+                // now and then something un-openable sits where a temporary file would go
+                if sc.cut_seed % 3 == 0 {
+                    w.fs.disk.put_dir(&format!("{}/rates-{}.csv.tmp", cache_dir_key(), y));
+                }
             });
             st.bump("probe.cache_directory_also_holds_foreign_files_with_wrong_rates");
         }
